@@ -623,3 +623,109 @@ Proof.
 Qed.
 
 End Equity.
+
+(* ================================================================== printing twice *)
+Section Idempotent.
+Local Open Scope Z_scope.
+
+(* a posting amount (commodity, not keep_precision) re-read from print's text prints as the same text *)
+Lemma read_back_nokeep cp a c :
+  acomm a = Some c -> akeep a = false ->
+  read_back cp a =
+  mkAmt (Qred (Qmake (print_scaled (Qnum (Qred (aq a))) (Zpos (Qden (Qred (aq a)))) (cp c)) (Z.to_pos (10 ^ cp c))))
+        (cp c) false (Some c).
+Proof.
+  intros Hc Hk. unfold read_back, display_precision, zeros_prec. rewrite Hc, Hk, Z.sub_diag. reflexivity.
+Qed.
+
+Theorem read_back_idem cp a c :
+  acomm a = Some c -> akeep a = false -> 0 <= cp c <= 230 ->
+  read_back cp (read_back cp a) = read_back cp a.
+Proof.
+  intros Hc Hk Hcp. rewrite (read_back_nokeep cp a c Hc Hk).
+  set (N := print_scaled (Qnum (Qred (aq a))) (Zpos (Qden (Qred (aq a)))) (cp c)).
+  match goal with |- read_back cp ?r = _ =>
+    rewrite (read_back_nokeep cp r c (eq_refl : acomm r = Some c) (eq_refl : akeep r = false)) end. cbn [aq].
+  set (q' := Qred (Qred (N # Z.to_pos (10 ^ cp c)))).
+  assert (H10 : 0 < 10 ^ cp c) by (apply Z.pow_pos_nonneg; lia).
+  assert (Hq : (q' == N # Z.to_pos (10 ^ cp c))%Q) by (unfold q'; rewrite !Qred_correct; reflexivity).
+  unfold Qeq in Hq. cbn [Qnum Qden] in Hq. rewrite Z2Pos.id in Hq by exact H10.
+  rewrite (print_scaled_exact (Qnum q') (Zpos (Qden q')) (cp c) N); [reflexivity | lia | exact Hcp | exact Hq].
+Qed.
+
+(* a plainly written posting: commodity amount, no cost, no assignment, not shown as 0 *)
+Definition wf_plain (cp : comm -> Z) (x : xpost) : Prop :=
+  let (p, e) := x in
+  p_calculated p = false /\ p_generated p = false /\ p_cost p = None /\ e_given e = None /\ e_assigned e = None /\
+  exists a c, p_amt p = Some a /\ acomm a = Some c /\ akeep a = false /\ 0 <= cp c <= 230 /\
+              is_zero cp a = false /\ is_zero cp (read_back cp a) = false.
+
+Lemma mark_idem xs e v1 v2 v3 v4 :
+  mark_of xs (mkExtra (read_state xs (mark_of xs e)) v1 v2 v3 v4) = mark_of xs e.
+Proof. unfold mark_of, read_state. destruct xs; cbn [e_state]; destruct (e_state e); reflexivity. Qed.
+
+Lemma decide_post_idem cp xs count index f f' x :
+  count <> 2%nat -> wf_plain cp x ->
+  exists ln, decide_post cp xs count index f x = Ok (Some ln) /\
+             decide_post cp xs count index f' (reread_line cp xs ln) = Ok (Some ln).
+Proof.
+  intros Hc Hw. destruct x as [p e].
+  destruct Hw as [H1 [H2 [H3 [H4 [H5 [a [c [Ha [Hac [Hk [Hcp [Hz Hz']]]]]]]]]]]].
+  assert (Hcount : Nat.eqb count 2 = false) by (apply Nat.eqb_neq; exact Hc).
+  unfold decide_post at 1. rewrite H2, H1, Ha, Hcount, H4, H5. cbn [andb bind].
+  eexists. split; [reflexivity|].
+  unfold reread_line. cbn [l_cost l_amt l_acct l_kind l_lot l_mark l_assigned].
+  unfold decide_post. cbn [p_generated p_calculated p_amt p_acct p_kind p_lotprice e_given e_assigned].
+  rewrite Hcount. cbn [andb bind]. rewrite mark_idem.
+  unfold read_back_value. rewrite Hz, Hz'. rewrite (read_back_idem cp a c Hac Hk Hcp). reflexivity.
+Qed.
+
+Lemma decide_from_idem cp xs count f f' : count <> 2%nat -> forall l index,
+  Forall (wf_plain cp) l ->
+  exists ls, decide_from cp xs count f index l = Ok ls /\
+             decide_from cp xs count f' index (reread cp xs ls) = Ok ls.
+Proof.
+  intros Hc. induction l as [|x l IH]; intros index Hw.
+  - exists []. split; reflexivity.
+  - inversion Hw as [|? ? Hx Hl]; subst.
+    destruct (decide_post_idem cp xs count index f f' x Hc Hx) as [ln [Hd Hd']].
+    destruct (IH (S index) Hl) as [ls [Hds Hds']].
+    exists (ln :: ls). cbn [decide_from reread map]. rewrite Hd, Hds. cbn [bind]. split; [reflexivity|].
+    fold (reread cp xs ls). rewrite Hd', Hds'. reflexivity.
+Qed.
+
+Lemma decide_from_length cp xs count f : forall l index ls,
+  Forall (wf_plain cp) l -> decide_from cp xs count f index l = Ok ls -> length ls = length l.
+Proof.
+  induction l as [|x l IH]; intros index ls Hw; cbn [decide_from]; [intros [= <-]; reflexivity|].
+  inversion Hw as [|? ? Hx Hl]; subst.
+  destruct (decide_post cp xs count index f x) as [o|] eqn:E; cbn [bind]; [|discriminate].
+  destruct (decide_from cp xs count f (S index) l) as [r|] eqn:E2; cbn [bind]; [|discriminate].
+  assert (Ho : exists ln, o = Some ln).
+  { destruct x as [p e]. destruct Hx as [H1 [H2 [_ [_ [_ [a [c [Ha _]]]]]]]].
+    unfold decide_post in E. rewrite H2, H1, Ha in E.
+    destruct (match e_given e with Some _ => _ | None => _ end); cbn [bind] in E; [|discriminate].
+    injection E as <-. eexists; reflexivity. }
+  destruct Ho as [ln ->]. intros [= <-]. cbn [length]. rewrite (IH _ _ Hl E2). reflexivity.
+Qed.
+
+(* printing the re-read text makes the same decisions, line by line (layout is a function of
+   the lines, so the text is the same) *)
+Theorem print_idempotent cp xs (l : list xpost) :
+  length l <> 2%nat -> Forall (wf_plain cp) l ->
+  exists ls, decide cp xs l = Ok ls /\ decide cp xs (reread cp xs ls) = Ok ls.
+Proof.
+  intros Hlen Hw. unfold decide at 1. destruct l as [|x l']; [exists []; split; reflexivity|].
+  destruct (decide_from_idem cp xs (length (x :: l')) x x Hlen (x :: l') 1%nat Hw) as [ls [Hd _]].
+  exists ls. split; [exact Hd|].
+  pose proof (decide_from_length cp xs _ x (x :: l') 1%nat ls Hw Hd) as Hl.
+  unfold decide. destruct (reread cp xs ls) as [|y r] eqn:Er.
+  - destruct ls; [reflexivity | discriminate].
+  - assert (Hlen2 : length (y :: r) = length (x :: l')).
+    { rewrite <- Er. unfold reread. rewrite map_length. exact Hl. }
+    rewrite Hlen2.
+    destruct (decide_from_idem cp xs (length (x :: l')) x y Hlen (x :: l') 1%nat Hw) as [ls2 [Hd2 Hd2']].
+    rewrite Hd in Hd2. injection Hd2 as <-. rewrite Er in Hd2'. exact Hd2'.
+Qed.
+
+End Idempotent.
